@@ -2,7 +2,7 @@
  * implementation of the standards (GNU nettle: md5, sha1, sha2, sha3, gosthash94cp).
  *
  * usage: hash_enum small <algo 0..10>          splits + sequences (quick)
- *        hash_enum big <algo> <b> <r> <mode>   single update of 2^32+r bytes arriving with b bytes buffered (mode 0),
+ *        hash_enum big <algo> <b> <r> <mode> [<lg> [<chunklg>]]   single update of 2^lg+r bytes (lg defaults to 32) arriving with b bytes buffered (mode 0),
  *                                              or the same bytes streamed in 1 MiB chunks (mode 1)
  *        hash_enum replay <algo> <spec>        spec = split:l1.l2[.l3] | seq:<ops>
  */
@@ -203,23 +203,24 @@ static unsigned char *virtual_buffer(size_t total)
     for (off = 0; off < total; off += TILE) if (mmap(base + off, TILE, PROT_READ, MAP_SHARED | MAP_FIXED, fd, 0) == MAP_FAILED) { perror("tile"); exit(2); }
     return base;
 }
+static int BIG_LG = 32, CHUNK_LG = 20;
 static int do_big(size_t b, size_t r, int mode)
 {
-    size_t big = ((size_t)1 << 32) + r, total = b + big; unsigned char *v = virtual_buffer(total + TILE), ref[64], got[64]; RefCtx rc; PCryptoHash *h; psize len = ALG[A].dlen; char gh[132], rh[132];
-    snprintf(cur, sizeof cur, "big:%zu.%zu.%d", b, r, mode);
-    hout_progress("sig=%s/big hash_enum big %d %zu %zu %d", ALG[A].name, A, b, r, mode);
+    size_t big = ((size_t)1 << BIG_LG) + r, total = b + big; unsigned char *v = virtual_buffer(total + TILE), ref[64], got[64]; RefCtx rc; PCryptoHash *h; psize len = ALG[A].dlen; char gh[132], rh[132];
+    snprintf(cur, sizeof cur, "big:%zu.%zu.%d.%d.%d", b, r, mode, BIG_LG, CHUNK_LG);
+    hout_progress("sig=%s/big hash_enum big %d %zu %zu %d %d %d", ALG[A].name, A, b, r, mode, BIG_LG, CHUNK_LG);
     ref_init(&rc); { size_t off = 0; while (off < total) { size_t c = total - off > (64u << 20) ? (64u << 20) : total - off; ref_update(&rc, v + off, c); off += c; } } ref_digest(&rc, ref);
     h = p_crypto_hash_new(ALG[A].type);
     if (mode == 0) { if (b) p_crypto_hash_update(h, v, b); p_crypto_hash_update(h, v + b, big); }
-    else { size_t off = 0; while (off < total) { size_t c = total - off > (1u << 20) ? (1u << 20) : total - off; p_crypto_hash_update(h, v + off, c); off += c; } }
+    else { size_t off = 0, ch = (size_t)1 << CHUNK_LG; while (off < total) { size_t c = total - off > ch ? ch : total - off; p_crypto_hash_update(h, v + off, c); off += c; } }
     p_crypto_hash_get_digest(h, got, &len); p_crypto_hash_free(h);
     hex(got, ALG[A].dlen, gh); hex(ref, ALG[A].dlen, rh);
     if (memcmp(got, ref, ALG[A].dlen)) {
-        char sig[96]; snprintf(sig, sizeof sig, "big/%s", mode ? "stream-crossing-2^32" : (b ? "single-update-2^32-buffered" : "single-update-2^32"));
-        viol(sig, "%zu bytes buffered, then %s of 2^32+%zu bytes: digest %s, standard digest %s", b, mode ? "1 MiB chunks totalling" : "one update", r, gh, rh);
+        char sig[96]; snprintf(sig, sizeof sig, mode ? "big/stream-crossing-2^%d" : (b ? "big/single-update-2^%d-buffered" : "big/single-update-2^%d"), BIG_LG);
+        viol(sig, "%zu bytes buffered, then %s of 2^%d+%zu bytes%s: digest %s, standard digest %s", b, mode ? "chunks totalling" : "one update", BIG_LG, r, mode ? (CHUNK_LG == 20 ? " (1 MiB chunks)" : " (large chunks)") : "", gh, rh);
     }
     hout_stat("evaluations", 1); hout_stat("big_inputs", 1); hout_stat("nontrivial", 1);
-    hout_sample("%s: update(%zu) then %s 2^32+%zu bytes", ALG[A].name, b, mode ? "1 MiB chunks of" : "single update of", r);
+    hout_sample("%s: update(%zu) then %s 2^%d+%zu bytes", ALG[A].name, b, mode ? "chunks of" : "single update of", BIG_LG, r);
     return hout_nviol ? 1 : 0;
 }
 
@@ -229,6 +230,8 @@ int main(int argc, char **argv)
     hout_open(); p_libsys_init();
     A = atoi(argv[2]); if (A < 0 || A > 10) return 2;
     if (!strcmp(argv[1], "small")) return do_small(argc > 3 ? atoi(argv[3]) : 5);
+    if (!strcmp(argv[1], "big") && argc > 6) BIG_LG = atoi(argv[6]);
+    if (!strcmp(argv[1], "big") && argc > 7) CHUNK_LG = atoi(argv[7]);
     if (!strcmp(argv[1], "big")) return do_big(strtoul(argv[3], NULL, 0), strtoul(argv[4], NULL, 0), atoi(argv[5]));
     if (!strcmp(argv[1], "replay")) {
         const char *s = argv[3]; replay_mode = 1; CC = argc > 4 ? atoi(argv[4]) : 0;
@@ -239,7 +242,7 @@ int main(int argc, char **argv)
             msg = malloc(tot + 1); for (i = 0; i < (int)tot; i++) msg[i] = pat(i);
             ref_oneshot(msg, tot, ref); check_split(msg, l, nl, ref);
         } else if (!strncmp(s, "seq:", 4)) run_seq(s + 4);
-        else if (!strncmp(s, "big:", 4)) { size_t b, r; int m; sscanf(s + 4, "%zu.%zu.%d", &b, &r, &m); return do_big(b, r, m); }
+        else if (!strncmp(s, "big:", 4)) { size_t b, r; int m; sscanf(s + 4, "%zu.%zu.%d.%d.%d", &b, &r, &m, &BIG_LG, &CHUNK_LG); return do_big(b, r, m); }
         printf("replay finished: %ld violation report(s)\n", hout_nviol);
         return hout_nviol ? 1 : 0;
     }
